@@ -134,7 +134,7 @@ def impl():
             opts = CTX.generation_options_var.get()
             seen_opts = json.loads(json.dumps(opts.dict(), default=str)) if opts is not None else None
             h.calls.append({"tag": tag, "prompt": prompt, "params": snap,
-                            "ctx": {"options": seen_opts, "raw": json.loads(json.dumps(CTX.raw_llm_request.get(), default=str))}})
+                            "ctx": {"options": seen_opts, "raw": strip(json.loads(json.dumps(CTX.raw_llm_request.get(), default=str)))}})
             h.steps.append((tag, "call", None, snap))
             h.ctx.append((tag, opts.llm_params if opts is not None else None, CTX.raw_llm_request.get()))
             lat = h.lat.get((tag, k), 0)
@@ -238,7 +238,7 @@ def coq_tok(t):
     """X tokens are interned per trace (injective renaming; the model only copies and compares them)."""
     if t[0] == "X":
         return f"(TX {_INTERN.setdefault(t[1], len(_INTERN))})"
-    return f"(t{t[0]} {C.coq_string(t[1])})"
+    return f"(t{t[0]} {C.coq_string(short(t[1]))})"
 
 
 ROLE_COQ = {"user": "RUser", "assistant": "RAssistant", "context": "RContext", "event": "REvent",
@@ -263,9 +263,21 @@ def smsg(m):
     return ROLE_COQ[r], b
 
 
+_SHORT = [False]
+
+
+def short(t):
+    """In trace terms a long text (the generation-options context message) is replaced, in the
+    message bodies AND in the event tokens alike, by a digest: an injective renaming of texts as far
+    as the trace check is concerned (the key differential always uses the full texts)."""
+    if _SHORT[0] and len(t) > 100:
+        return "#L" + hashlib.sha1(t.encode()).hexdigest()[:20]
+    return t
+
+
 def coq_smsg(m):
     r, b = smsg(m)
-    return f"({r}, {C.coq_string(b)})"
+    return f"({r}, {C.coq_string(short(b))})"
 
 
 def coq_msgs(ms):
@@ -598,12 +610,14 @@ def work_set(args):
         res["ctx_terms"].append(C.coq_list(["(" + x + ")" for x in clog]))
         res["ctx_meta"].append({"set": s, "sched": list(sched)})
         _INTERN.clear()
+        _SHORT[0] = True
         try:
             ops = ["Serve {} {} {} {}".format(coq_msgs(r["req"]), coq_toks(r["events"]), coq_smsg(r["reply"]), coq_toks(r["new"]))
                    for r in recs]
             ops += ["Probe {} {}".format(coq_msgs(p["req"]), coq_toks(p["events"])) for p in precs]
         except ValueError:      # a reply the model has no role for (generate raised): reported below
             ops = None
+        _SHORT[0] = False
         if ops is not None and not any(r["err"] for r in recs):
             res["terms"].append(C.coq_list(["(" + o + ")" for o in ops]))
             res["meta"].append({"set": s, "sched": list(sched)})
